@@ -40,3 +40,104 @@ static inline int post_verif_broadcast_shape(sv_t a, sv_t b, opt_hn_t ret)
   if (HN_LEN(OPT_VAL(ret)) != spec_bcast_dim(a, b)) return 0;
   return IMPLIES(g < spec_bcast_dim(a, b), spec_bcast_compat(a, b, g) && HN_AT(OPT_VAL(ret), g) == spec_bcast_extent(a, b, g));
 }
+
+/* ---- shape_broadcast_to(a -> b): NumPy broadcast_to rule; result (b, free_axes) */
+static inline int spec_bto_axis_ok(sv_t a, sv_t b, unsigned long k)   /* k: axis of b */
+{
+  if (!BC_HAS(SV_LEN(a), SV_LEN(b), k)) return 1;                      /* prepended axis */
+  unsigned long x = SV_AT(a, k + SV_LEN(a) - SV_LEN(b)), y = SV_AT(b, k);
+  return x == y || x == 1UL;
+}
+static inline int spec_bto_axis_free(sv_t a, sv_t b, unsigned long k)
+{
+  if (!BC_HAS(SV_LEN(a), SV_LEN(b), k)) return 1;
+  unsigned long x = SV_AT(a, k + SV_LEN(a) - SV_LEN(b)), y = SV_AT(b, k);
+  return x != y;                                                       /* stretched (x == 1, y != 1) */
+}
+static inline int spec_bto_ok(sv_t a, sv_t b)
+{
+  if (SV_LEN(b) < SV_LEN(a)) return 0;
+  int ok = 1;
+  for (unsigned long k = 0; k < CAP; k++) if (k < SV_LEN(b)) ok = ok && spec_bto_axis_ok(a, b, k);
+  return ok;
+}
+static inline int pre_verif_shape_broadcast_to(sv_t a, sv_t b)
+{ return SV_LEN(a) <= CAP && SV_LEN(b) <= CAP; }
+static inline int post_verif_shape_broadcast_to(sv_t a, sv_t b, opt_bto_t ret)
+{
+  if (!OPT_HAS(ret)) return !spec_bto_ok(a, b);
+  if (SV_LEN(b) < SV_LEN(a)) return 0;
+  if (SV_LEN(TUP_GET(OPT_VAL(ret), 0)) != SV_LEN(b) || SV_LEN(TUP_GET(OPT_VAL(ret), 1)) != SV_LEN(b)) return 0;
+  return IMPLIES(g < SV_LEN(b), spec_bto_axis_ok(a, b, g)
+                                && SV_AT(TUP_GET(OPT_VAL(ret), 0), g) == SV_AT(b, g)
+                                && (SV_AT(TUP_GET(OPT_VAL(ret), 1), g) != 0) == (spec_bto_axis_free(a, b, g) != 0));
+}
+
+/* ---- algebraic laws of the broadcast rule, stated over the spec functions (lemma units; ranks 0..CAP, any extents) */
+typedef struct { int ok; unsigned long dim; unsigned long ext[8]; } bc_t;
+static inline bc_t spec_bcast(sv_t a, sv_t b)
+{
+  bc_t r; r.ok = spec_bcast_ok(a, b); r.dim = spec_bcast_dim(a, b);
+  for (unsigned long k = 0; k < CAP; k++) r.ext[k] = (k < r.dim) ? spec_bcast_extent(a, b, k) : 0UL;
+  return r;
+}
+#ifndef VERIF_NATIVE
+static inline sv_t bc_to_sv(bc_t r)
+{ sv_t s; s.size_ = r.dim; for (unsigned long k = 0; k < CAP; k++) s.buffer.buffer[k] = r.ext[k]; return s; }
+static inline int bc_eq(bc_t x, bc_t y)
+{
+  if (x.ok != y.ok) return 0;
+  if (!x.ok) return 1;
+  if (x.dim != y.dim) return 0;
+  int e = 1;
+  for (unsigned long k = 0; k < CAP; k++) if (k < x.dim) e = e && x.ext[k] == y.ext[k];
+  return e;
+}
+static inline int sv_wf(sv_t a) { return SV_LEN(a) <= CAP; }
+/* positive extents (the property quantifies over shapes of positive extents; with a 0 extent the max rule gives
+ * (0,)+(1,) -> (1,) and grouping then matters: ((0,)+(1,))+(2,) succeeds, (0,)+((1,)+(2,)) fails) */
+static inline int sv_pos(sv_t a) { int e = 1; for (unsigned long k = 0; k < CAP; k++) if (k < SV_LEN(a)) e = e && SV_AT(a, k) >= 1UL; return e; }
+/* operand order does not matter */
+static inline int lemma_bcast_commutative(sv_t a, sv_t b)
+{ return !(sv_wf(a) && sv_wf(b)) || bc_eq(spec_bcast(a, b), spec_bcast(b, a)); }
+/* broadcasting a shape with itself changes nothing */
+static inline int lemma_bcast_idempotent(sv_t a)
+{ if (!sv_wf(a)) return 1; bc_t r = spec_bcast(a, a); int e = r.ok && r.dim == SV_LEN(a);
+  for (unsigned long k = 0; k < CAP; k++) if (k < r.dim) e = e && r.ext[k] == SV_AT(a, k); return e; }
+/* broadcasting with the result changes nothing */
+static inline int lemma_bcast_absorb(sv_t a, sv_t b)
+{ if (!(sv_wf(a) && sv_wf(b))) return 1; bc_t r = spec_bcast(a, b); if (!r.ok) return 1;
+  return bc_eq(spec_bcast(a, bc_to_sv(r)), r) && bc_eq(spec_bcast(bc_to_sv(r), b), r); }
+/* a scalar (rank 0) broadcasts with everything */
+static inline int lemma_bcast_scalar(sv_t a, sv_t s)
+{ if (!(sv_wf(a) && SV_LEN(s) == 0)) return 1; bc_t r = spec_bcast(a, s); int e = r.ok && r.dim == SV_LEN(a);
+  for (unsigned long k = 0; k < CAP; k++) if (k < r.dim) e = e && r.ext[k] == SV_AT(a, k); return e; }
+/* axis-wise form: with missing axes padded by 1, every result axis is comb(x,y) = (x==y||x==1||y==1, max(x,y)) */
+static inline int lemma_bcast_axiswise(sv_t a, sv_t b, unsigned long k)
+{
+  if (!(sv_wf(a) && sv_wf(b) && sv_pos(a) && sv_pos(b))) return 1;
+  unsigned long rd = spec_bcast_dim(a, b);
+  if (k >= rd) return 1;
+  unsigned long x = BC_EXT(a, SV_LEN(a), rd, k), y = BC_EXT(b, SV_LEN(b), rd, k);   /* 1 when the operand has no such axis */
+  return spec_bcast_compat(a, b, k) == (x == y || x == 1UL || y == 1UL) && spec_bcast_extent(a, b, k) == MAXU(x, y);
+}
+/* the scalar combine is associative on positive extents (including failure) */
+static inline int lemma_comb_associative(unsigned long x, unsigned long y, unsigned long z)
+{
+  if (!(x >= 1 && y >= 1 && z >= 1)) return 1;
+  int okxy = (x == y || x == 1 || y == 1); unsigned long xy = MAXU(x, y);
+  int okyz = (y == z || y == 1 || z == 1); unsigned long yz = MAXU(y, z);
+  int okl = okxy && (xy == z || xy == 1 || z == 1); unsigned long l = MAXU(xy, z);
+  int okr = okyz && (x == yz || x == 1 || yz == 1); unsigned long r = MAXU(x, yz);
+  return okl == okr && (!okl || l == r);
+}
+/* grouping does not matter: (a+b)+c == a+(b+c), including failure */
+static inline int lemma_bcast_associative(sv_t a, sv_t b, sv_t c)
+{
+  if (!(sv_wf(a) && sv_wf(b) && sv_wf(c) && sv_pos(a) && sv_pos(b) && sv_pos(c))) return 1;
+  bc_t ab = spec_bcast(a, b), bc = spec_bcast(b, c);
+  bc_t l; l.ok = 0; if (ab.ok) l = spec_bcast(bc_to_sv(ab), c);
+  bc_t r; r.ok = 0; if (bc.ok) r = spec_bcast(a, bc_to_sv(bc));
+  return bc_eq(l, r);
+}
+#endif
